@@ -226,7 +226,13 @@ def one_case(ctx, prog, spec=None, label="gen"):
         # repeated evaluation gives the same value
         if calls and not isinstance(impl_results[-1], str):
             analysis.next = calls[-1]["o"]
-            again = float(fit(list(calls[-1]["v"])))
+            # same argument type as the first evaluation (numpy and Python float arithmetic of the
+            # log-prior terms may differ in the last bit)
+            if reuse_buffer:
+                buf[:] = calls[-1]["v"]
+                again = float(fit(buf))
+            else:
+                again = float(fit(list(calls[-1]["v"])))
             if f2h(again) != f2h(impl_results[-1]):
                 ctx.fail("C04-repeat", "repeated evaluation of the same vector gave a different value", case, {"first": impl_results[-1], "again": again})
 
